@@ -20,12 +20,12 @@ CONFIG = {
         "the documented language is in_language (model/CmpbFields.v), written from README.md and schema.proto",
     ],
     "mult_search": 3,
-    "refuted": ["C07_language_refuted (float rules; list rules on an informal key)", "C07_setext_typed_refuted (list_request extends MessageOptions but is set on MethodOptions: panic)"],
-    "partial": ["C07_language_accepted_partial (documented language minus float rules and informal-key list rules)", "C07_setext_typed_partial (all SetExtension sites but the list_request one)"],
+    "refuted": ["C07_language_refuted (float rules; list rules on an informal key)", "C07_setext_typed_refuted (list_request extends MessageOptions but is set on MethodOptions: panic)", "C07_service_refuted (a method with a list request panics)"],
+    "partial": ["C07_language_accepted_partial (documented language minus float rules and informal-key list rules)", "C07_setext_typed_partial (all SetExtension sites but the list_request one)", "C07_service_total_links_partial / C07_service_accepted_partial (services without list requests)"],
 }
 
 MANIFEST = {
-    "text": "Theorems over a Gallina model of the j5s converter's field core (buildProperty/buildField/setJ5Ext/resolveType/ensureImport) for every abstract field: no Go panic site (SetExtension with a wrong Go type or extendee, reflection copy in setJ5Ext, nil result dereference, ensureImport on a bad path) is reachable; a file holding one property never fails to link and every extension set has its defining file among the ensured imports; everything in the documented language except two recorded combinations is accepted, and rejections happen only outside it and record an error. The SetExtension call sites, extension Go types/extendees/files, import constants and the descriptor tables setJ5Ext copies between are regenerated from /repo on every run and checked by computed lemmas. The tie runs the full isolation matrix (every field type x rule kind x wrapper in a file with nothing else) through the real compiler and compares verdict, imports and extensions with the model; declaration matrix, random bytes, token mutations and semantic-error files go through Compile, LintFile and LintAll under recover() in a crash-isolated child, checking that every error leaf carries a position inside a source file.",
+    "text": "Theorems over a Gallina model of the j5s converter's field core (buildProperty/buildField/setJ5Ext/resolveType/ensureImport) for every abstract field: no Go panic site (SetExtension with a wrong Go type or extendee, reflection copy in setJ5Ext, nil result dereference, ensureImport on a bad path) is reachable; a file holding one property never fails to link and every extension set has its defining file among the ensured imports; everything in the documented language except two recorded combinations is accepted, and rejections happen only outside it and record an error. For declarations of unbounded size (model/CmpbDecls.v, induction over the lists): a top-level enum with any number of options, with or without info, is accepted and links alone; a service with any number of methods and no list request never panics, always links, and is accepted when in the language; with a list request it panics (refutation = recorded finding). The SetExtension call sites, extension Go types/extendees/files, import constants and the descriptor tables setJ5Ext copies between are regenerated from /repo on every run and checked by computed lemmas. The tie runs the full isolation matrix and generated enums/services alone in a file (every field type x rule kind x wrapper in a file with nothing else) through the real compiler and compares verdict, imports and extensions with the model; declaration matrix, random bytes, token mutations and semantic-error files go through Compile, LintFile and LintAll under recover() in a crash-isolated child, checking that every error leaf carries a position inside a source file.",
     "note": "Proved for the converter's decision core; partial for the property as a whole: the BCL walker, entity/service/topic expansion and package loading are explored, not modelled; lexer/parser totality is C11. Refuted parts are recorded findings (float rules, informal key + list rules, list_request panic, link-stage and package-loading errors without a source position, LintFile reporting under the generated file name). Trusted: Coq kernel; the go/types translator; the correspondence harness; protocompile and protobuf-go behaviour as modelled. All C07 theorems are closed under the global context (no axioms).",
     "technique": "Rocq/Coq proof (complete enumeration of a finite abstract field space with a completeness lemma, vm_compute) + regenerated call-site/extension/descriptor tables with computed agreement lemmas + in-Coq differential correspondence on the full isolation matrix + direct oracle on malformed and semantic-error streams",
 }
